@@ -74,6 +74,12 @@ def syncDest (fs : FS) (r : FPath) (src : FPath → Option SEntry) (ls : List (F
   (runOps (fun f x => delOp f r x) fs (planDel src ld)).bind fun fs1 =>
     runOps (fun f x => cpyOp f r x) fs1 (planCpy (fun p => fs.get (r ++ p)) ls)
 
+/-- the listing on nodes: every child of `dir`, each real folder followed by its own listing (a symlink is a leaf) -/
+def listNodes (fs : FS) : Nat → FPath → List (FPath × Node)
+  | 0, _ => []
+  | f + 1, dir => (fs.childrenOf dir).flatMap fun e =>
+      e :: (if e.2 = .folder then listNodes fs f e.1 else [])
+
 /-- what a creation leaves at its path -/
 def written : SEntry → Node
   | .file b m => .file b (.at m)
